@@ -53,3 +53,385 @@ def event_prob(bin_type, cdf0, cdf1=None):
     if bin_type in ("above", "above="):
         return 1 - cdf0
     return cdf1 - cdf0
+
+
+# --------------------------------------------------------------------------------------
+# Civil calendar on integers (no datetime) - C11, C03 (-d), C12 (row labels)
+# --------------------------------------------------------------------------------------
+def days_from_civil(y, m, d):
+    y -= m <= 2
+    era = (y if y >= 0 else y - 399) // 400
+    yoe = y - era * 400
+    doy = (153 * (m + (-3 if m > 2 else 9)) + 2) // 5 + d - 1
+    doe = yoe * 365 + yoe // 4 - yoe // 100 + doy
+    return era * 146097 + doe - 719468
+
+
+def civil_from_days(z):
+    z += 719468
+    era = (z if z >= 0 else z - 146096) // 146097
+    doe = z - era * 146097
+    yoe = (doe - doe // 1460 + doe // 36524 - doe // 146096) // 365
+    y = yoe + era * 400
+    doy = doe - (365 * yoe + yoe // 4 - yoe // 100)
+    mp = (5 * doy + 2) // 153
+    d = doy - (153 * mp + 2) // 5 + 1
+    m = mp + (3 if mp < 10 else -9)
+    return (y + (m <= 2), m, d)
+
+
+def is_leap(y):
+    return (y % 4 == 0 and y % 100 != 0) or y % 400 == 0
+
+
+def date_to_unix(date):
+    y, m, d = date // 10000, date // 100 % 100, date % 100
+    return days_from_civil(y, m, d) * 86400
+
+
+def unix_to_date(t):
+    y, m, d = civil_from_days(int(t) // 86400)
+    return y * 10000 + m * 100 + d
+
+
+def valid_date(date):
+    y, m, d = date // 10000, date // 100 % 100, date % 100
+    if not (1 <= m <= 12 and d >= 1):
+        return False
+    mdays = [31, 29 if is_leap(y) else 28, 31, 30, 31, 30, 31, 31, 30, 31, 30, 31]
+    return d <= mdays[m - 1]
+
+
+def add_days(date, k):
+    return unix_to_date(date_to_unix(date) + k * 86400)
+
+
+def day_of_year(y, m, d):
+    return days_from_civil(y, m, d) - days_from_civil(y, 1, 1) + 1
+
+
+TIME_AXES = ["time", "year", "month", "week", "day", "timeofday", "dayofyear", "dayofmonth", "monthofyear"]
+LEADTIME_AXES = ["leadtime", "leadtimeday"]
+LOCATION_AXES = ["location", "lat", "lon", "elev"]
+DATA_AXES = TIME_AXES + LEADTIME_AXES + LOCATION_AXES + ["no"]
+
+
+def time_bucket(axis, t):
+    """Bucket value of initialisation time t (unix seconds, UTC calendar)."""
+    t = int(t)
+    days = t // 86400
+    y, m, d = civil_from_days(days)
+    if axis == "time":
+        return t
+    if axis == "year":
+        return days_from_civil(y, 1, 1) * 86400
+    if axis == "month":
+        return days_from_civil(y, m, 1) * 86400
+    if axis == "week":
+        weekday = (days + 3) % 7  # Monday = 0; 1970-01-01 was a Thursday
+        return (days - weekday) * 86400
+    if axis == "day":
+        return days * 86400
+    if axis == "timeofday":
+        return (t % 86400) / 3600.0
+    if axis == "dayofyear":
+        # the tool numbers days within a leap-year calendar (1 Mar is always day 61);
+        # the check compares the partition and only judges the value where it is unambiguous
+        return day_of_year(2000, m, d)
+    if axis == "dayofmonth":
+        return d
+    if axis == "monthofyear":
+        return m
+    raise ValueError(axis)
+
+
+def leadtime_bucket(axis, l):
+    if axis == "leadtime":
+        return l
+    if axis == "leadtimeday":
+        return int(l / 24)
+    raise ValueError(axis)
+
+
+def format_time_label(axis, bucket):
+    """Row label verif prints for a time-like axis (strftime formats of the axes)."""
+    t = int(bucket)
+    y, m, d = civil_from_days(t // 86400)
+    s = t % 86400
+    if axis == "time":
+        return "%04d-%02d-%02d %02d:%02d:%02d" % (y, m, d, s // 3600, s % 3600 // 60, s % 60)
+    if axis == "year":
+        return "%04d" % y
+    if axis == "month":
+        return "%04d/%02d" % (y, m)
+    if axis == "day":
+        return "%04d/%02d/%02d" % (y, m, d)
+    if axis == "week":
+        # %U: week number of the year with Sunday as first day of the week
+        doy = day_of_year(y, m, d)
+        wday_sun0 = ((t // 86400) + 4) % 7  # Sunday = 0
+        return "%04d/%02d" % (y, (doy + 6 - wday_sun0) // 7)
+    raise ValueError(axis)
+
+
+# --------------------------------------------------------------------------------------
+# Dataset model (C01-C04, C11, C14, C18): coordinate-keyed dictionaries
+# --------------------------------------------------------------------------------------
+class MInput(object):
+    """One input file as dictionaries keyed by (time, leadtime, location id)."""
+
+    def __init__(self, d, spec):
+        self.name = d["name"]
+        self.times = [spec["times"][i] for i in d["ti"]]
+        self.leadtimes = [spec["leadtimes"][i] for i in d["li"]]
+        self.locs = [spec["locs"][i] for i in d["si"]]
+        self.ids = [loc["id"] for loc in self.locs]
+        self.has_obs = d.get("obs") is not None
+        self.thresholds = list(d.get("thresholds") or [])
+        self.quantiles = list(d.get("quantiles") or [])
+        self.members = d.get("members", 0) if d.get("ens") is not None else 0
+        self.others = sorted((d.get("other") or {}).keys())
+        self.f = {}
+
+        def fill(name, nested, extra=None):
+            if nested is None:
+                return
+            tab = {}
+            for a, t in enumerate(self.times):
+                for b, l in enumerate(self.leadtimes):
+                    for c, s in enumerate(self.ids):
+                        v = nested[a][b][c]
+                        if extra is None:
+                            if v is not None:
+                                tab[(t, l, s)] = v
+                        else:
+                            tab[(t, l, s)] = v  # list over the 4th dimension, None = missing
+            self.f[name] = tab
+        fill("obs", d.get("obs"))
+        fill("fcst", d.get("fcst"))
+        fill("pit", d.get("pit"))
+        fill("ens", d.get("ens"), 4)
+        fill("cdf", d.get("cdf"), 4)
+        fill("qs", d.get("qs"), 4)
+        for name in self.others:
+            fill("other:" + name, d["other"][name])
+
+    def has(self, name):
+        return name in self.f
+
+    def value(self, field, c):
+        """Value of field at coordinate c in this file; None when missing. field is a tuple:
+        ("obs",) ("fcst",) ("pit",) ("thr", t) ("q", q) ("ens", m) ("other", name)."""
+        kind = field[0]
+        if kind in ("obs", "fcst", "pit"):
+            return self.f.get(kind, {}).get(c)
+        if kind == "other":
+            return self.f.get("other:" + field[1], {}).get(c)
+        if kind == "ens":
+            row = self.f.get("ens", {}).get(c)
+            return None if row is None else row[field[1]]
+        if kind == "thr":
+            t = field[1]
+            if t in self.thresholds:
+                row = self.f["cdf"].get(c)
+                return None if row is None else row[self.thresholds.index(t)]
+            row = self.f.get("ens", {}).get(c)
+            if row is None:
+                return None
+            vals = [v for v in row if v is not None]
+            if not vals:
+                return None
+            return sum(1 for v in vals if v <= t) / float(len(vals))
+        if kind == "q":
+            q = field[1]
+            if q in self.quantiles:
+                row = self.f["qs"].get(c)
+                return None if row is None else row[self.quantiles.index(q)]
+            row = self.f.get("ens", {}).get(c)
+            if row is None or any(v is None for v in row):
+                return None
+            return ("ensq", tuple(row), q)  # interpolation rule is the implementation's (C08 judges validity)
+        raise ValueError(field)
+
+
+def build_inputs(spec):
+    ins = [MInput(d, spec) for d in spec["inputs"]]
+    clim = MInput(spec["clim"], spec) if spec.get("clim") else None
+    return ins, clim
+
+
+def loc_meta(ins):
+    return {loc["id"]: loc for loc in ins[0].locs}
+
+
+def common_dims(ins, clim, opts=None):
+    """Times, lead times and location ids that are verified: present in every input (and the
+    climatology) and selected by every subsetting option. Ascending."""
+    opts = opts or {}
+    allin = ins + ([clim] if clim is not None else [])
+    times = set(allin[0].times)
+    leads = set(allin[0].leadtimes)
+    ids = set(allin[0].ids)
+    for m in allin[1:]:
+        times &= set(m.times)
+        leads &= set(m.leadtimes)
+        ids &= set(m.ids)
+    meta = loc_meta(allin)
+    if opts.get("times") is not None:
+        times &= set(opts["times"])
+    if opts.get("dates") is not None:
+        ds = set(opts["dates"])
+        times = set(t for t in times if unix_to_date(t) in ds)
+    if opts.get("tods") is not None:
+        hs = set(opts["tods"])
+        times = set(t for t in times if (t % 86400) % 3600 == 0 and (t % 86400) // 3600 in hs)
+    if opts.get("leadtimes") is not None:
+        leads &= set(opts["leadtimes"])
+    if opts.get("locations") is not None:
+        ids &= set(opts["locations"])
+    if opts.get("lat_range") is not None:
+        a, b = opts["lat_range"]
+        ids = set(i for i in ids if i in meta and a <= meta[i]["lat"] <= b)
+    if opts.get("lon_range") is not None:
+        a, b = opts["lon_range"]
+        ids = set(i for i in ids if i in meta and a <= meta[i]["lon"] <= b)
+    if opts.get("elev_range") is not None:
+        a, b = opts["elev_range"]
+        ids = set(i for i in ids if i in meta and a <= meta[i]["elev"] <= b)
+    if opts.get("locations_x") is not None:
+        ids -= set(opts["locations_x"])
+    return sorted(times), sorted(leads), sorted(ids)
+
+
+def obs_source(ins, clim, i):
+    """Index (into ins+[clim]) of the input whose observations input i is scored against."""
+    allin = ins + ([clim] if clim is not None else [])
+    if allin[i].has_obs:
+        return i
+    for j, m in enumerate(allin):
+        if m.has_obs:
+            return j
+    return None
+
+
+def case_values(ins, clim, opts, fields, i, c):
+    """Values of `fields` for input i at common coordinate c, or None when c is not a valid case.
+
+    Valid iff every requested field is non-missing at c in EVERY input (and the climatology),
+    with observations shared from the first input that has them; with -obsrange the observation
+    lies in the inclusive range; with a climatology the climatology forecast is present and the
+    anomaly (difference or quotient) of every obs/fcst value is finite.
+    Returns a tuple of floats in the order of `fields` (anomalies for obs/fcst with climatology).
+    """
+    opts = opts or {}
+    allin = ins + ([clim] if clim is not None else [])
+    out = []
+    uses_of = any(f[0] in ("obs", "fcst") for f in fields)
+    cv = None
+    if clim is not None and uses_of:
+        # the climatology's forecast is one more forecast series that must be present everywhere
+        for m in allin:
+            if m.value(("fcst",), c) is None:
+                return None
+        cv = clim.value(("fcst",), c)
+    for f in fields:
+        if f[0] == "obs":
+            vals = [m.value(f, c) for m in allin if m.has_obs]
+            if not vals or any(v is None for v in vals):
+                return None
+            v = allin[obs_source(ins, clim, i)].value(f, c)
+            rng = opts.get("obs_range")
+            if rng is not None and not (rng[0] <= v <= rng[1]):
+                return None
+        else:
+            for m in allin:
+                if m.value(f, c) is None:
+                    return None
+            v = ins[i].value(f, c)
+        if cv is not None and f[0] in ("obs", "fcst"):
+            if opts.get("clim_type", "subtract") == "subtract":
+                v = v - cv
+            else:
+                if cv == 0:
+                    return None
+                v = v / cv
+        out.append(v)
+    return tuple(out)
+
+
+def slices(axis, times, leads, ids, meta):
+    """List of (bucket_value, predicate(c)) in axis order for a data axis."""
+    if axis == "no":
+        return [(0, lambda c: True)]
+    if axis in TIME_AXES:
+        bs = sorted(set(time_bucket(axis, t) for t in times))
+        return [(b, (lambda c, b=b: time_bucket(axis, c[0]) == b)) for b in bs]
+    if axis in LEADTIME_AXES:
+        bs = sorted(set(leadtime_bucket(axis, l) for l in leads))
+        return [(b, (lambda c, b=b: leadtime_bucket(axis, c[1]) == b)) for b in bs]
+    if axis in LOCATION_AXES:
+        key = {"location": "id", "lat": "lat", "lon": "lon", "elev": "elev"}[axis]
+        return [(meta[i][key], (lambda c, i=i: c[2] == i)) for i in ids]
+    raise ValueError(axis)
+
+
+def cases(ins, clim, opts, fields, i, axis="no", index=0):
+    """Sorted list of value tuples of the valid cases of slice `index` along `axis`."""
+    times, leads, ids = common_dims(ins, clim, opts)
+    meta = loc_meta(ins)
+    sl = slices(axis, times, leads, ids, meta)
+    if index >= len(sl):
+        return None
+    pred = sl[index][1]
+    out = []
+    for t in times:
+        for l in leads:
+            for s in ids:
+                c = (t, l, s)
+                if not pred(c):
+                    continue
+                v = case_values(ins, clim, opts, fields, i, c)
+                if v is not None:
+                    out.append(v)
+    return out
+
+
+class DS(object):
+    """Model of one dataset + options: dims computed once, cases on demand."""
+
+    def __init__(self, spec, opts=None):
+        self.spec = spec
+        self.opts = opts or {}
+        self.ins, self.clim = build_inputs(spec)
+        self.times, self.leads, self.ids = common_dims(self.ins, self.clim, self.opts)
+        self.meta = loc_meta(self.ins)
+        self.empty = not (self.times and self.leads and self.ids)
+        self._grid = {}
+
+    def coords(self):
+        for t in self.times:
+            for l in self.leads:
+                for s in self.ids:
+                    yield (t, l, s)
+
+    def grid(self, fields, i):
+        key = (tuple(fields), i)
+        g = self._grid.get(key)
+        if g is None:
+            g = {}
+            for c in self.coords():
+                g[c] = case_values(self.ins, self.clim, self.opts, fields, i, c)
+            self._grid[key] = g
+        return g
+
+    def slices(self, axis):
+        return slices(axis, self.times, self.leads, self.ids, self.meta)
+
+    def cases(self, fields, i, axis="no", index=0):
+        sl = self.slices(axis)
+        pred = sl[index][1]
+        g = self.grid(fields, i)
+        return [g[c] for c in self.coords() if pred(c) and g[c] is not None]
+
+    def n_slices(self, axis):
+        return len(self.slices(axis))
